@@ -11,11 +11,14 @@ implementation's outputs.
 Round-2 families (harness/props/C07_hard.py, see /verif/HARDENING.md): label pools for column names (a case stores JSON
 label DESCRIPTORS; `materialize` builds fresh Python objects, containers and aliasing per call as `case["dress"]`
 says; the model sees nat ids assigned by Python's own ==/hash), container types, magnitudes, option sweeps, call
-sequences on shared objects, by-construction large instances (never sent to vm_compute) and event-directed cases.
+sequences on shared objects, by-construction large instances (never sent to vm_compute) and event-directed cases.  Round 3: W work-volume instances per internal loop (counts by construction, maxima in
+coverage.work_max_per_loop), A2 in-place edits between calls, X float entries / names / limits (the model gets the integer
+that decides the same comparisons, see eff_limit; NaN / fractional limits are judged on the limit-independent clauses).
 """
 import copy
 import itertools
 import json
+import math
 
 from harness.core import COQ, VERIF, Ctx, cbool, clist, cnat, copt, cz, guarded
 
@@ -321,6 +324,28 @@ def all_covers(rd):
     return out
 
 
+BIGZ = 2**200
+
+
+def eff_limit(x, kind):
+    """A numeric limit as the integer that decides the same comparisons with a non-negative int counter
+    (`iterations > max_iter`, `max_solutions and len(solutions) >= max_solutions`), and whether that reading is the plain one
+    (ints, integral floats, +-inf) or an interpretation of a NaN / fractional value (then the oracle does not rely on it)."""
+    if x is None or (isinstance(x, int) and not isinstance(x, bool)):
+        return x, True
+    if isinstance(x, bool):
+        return int(x), True
+    if x != x:  # NaN: every comparison is False -> never cut / never hit (and NaN is truthy)
+        return BIGZ, False
+    if x in (math.inf, -math.inf):
+        return (BIGZ if x > 0 else -BIGZ), True
+    if x == int(x):
+        return int(x), True
+    if kind == "mi":
+        return math.floor(x), False
+    return (math.ceil(x) if x > 0 else math.floor(x)), False
+
+
 class _Cap(Exception):
     pass
 
@@ -375,11 +400,17 @@ def oracle(case, out, mutated, nondet):
         # malformed call: only the documented behaviour "IndexError or some result" is accepted; no property claim
         return None if out["kind"] in ("done", "IndexError") else ("crash", f"malformed call: {out}")
     if out["kind"] != "done":
+        lims = [x for x in (case["max_solutions"], case["max_iter"]) if isinstance(x, float)]
+        if out["kind"] == "exc" and any(x != x or x in (math.inf, -math.inf) for x in lims):
+            return None  # a non-finite limit may be rejected by raising (the model correspondence still reports the change)
         return ("crash", f"implementation did not return: {out}")
     # all exact covers: subset enumeration up to 12 rows, beyond that an independent set-based branching reference
     # (None when even that is too large: then only the per-selection clauses are judged)
     covers = all_covers(rd) if rd[1] <= 12 else ref_covers(rd)
-    fa, ms, mi = case["find_all"], case["max_solutions"], case["max_iter"]
+    fa = case["find_all"]
+    ms, ms_plain = eff_limit(case["max_solutions"], "ms")
+    mi, mi_plain = eff_limit(case["max_iter"], "mi")
+    plain = ms_plain and mi_plain
     mi_eff = DEFAULT_MAX_ITER if mi is None else mi
     st, sels, shape = out["status"], out["sels"], out["shape"]
     # 1. every selection is an exact cover
@@ -401,6 +432,18 @@ def oracle(case, out, mutated, nondet):
         return ("find_all_shape", "find_all=False returned a list of selections")
     if st not in ("OPTIMAL", "FEASIBLE", "INFEASIBLE", "MAX_ITER"):
         return ("status", f"unexpected status {st}")
+    if not plain:
+        # NaN / fractional limits: the call returned, so the answer must obey the limit-independent clauses
+        if covers is not None:
+            if st == "INFEASIBLE" and covers:
+                return ("infeasible_iff", f"status INFEASIBLE but {len(covers)} exact cover(s) exist")
+            if st == "OPTIMAL" and fa and set(fs) != covers:
+                return ("incomplete", f"find_all reported OPTIMAL with {len(fs)} of {len(covers)} covers")
+        if st in ("OPTIMAL", "FEASIBLE") and not sels:
+            return ("status", f"{st} without a selection")
+        if out["objective"] != (len(sels) if fa else (len(sels[0]) if sels else 0)):
+            return ("objective", f"objective {out['objective']} does not match the solution")
+        return None
     # 3. the iteration limit is reported as such, and only then
     #    (iterations == 0: the early return for an empty matrix, no search ran, no limit to report)
     if (st == "MAX_ITER") != (out["iterations"] > mi_eff and out["iterations"] >= 1):
@@ -517,9 +560,9 @@ def coq_input(case):
     mat = clist(case["matrix"], lambda row: clist(row, lambda v: cbool(bool(v))))
     cols = "None" if cols_l is None else "(Some " + clist([t[n] for n in cols_l], cnat) + ")"
     sec = clist([t[x] for x in (sec_l or [])], cnat)
-    mi = DEFAULT_MAX_ITER if case["max_iter"] is None else case["max_iter"]
+    mi = DEFAULT_MAX_ITER if case["max_iter"] is None else eff_limit(case["max_iter"], "mi")[0]
     return ("{| matrix := %s; columns := %s; secondary := %s; find_all := %s; max_solutions := %s; max_iter := %s |}"
-            % (mat, cols, sec, cbool(case["find_all"]), copt(case["max_solutions"], cz), cz(mi)))
+            % (mat, cols, sec, cbool(case["find_all"]), copt(eff_limit(case["max_solutions"], "ms")[0], cz), cz(mi)))
 
 
 def coq_outcome(out):
@@ -579,7 +622,7 @@ def _planted(rng):
 
 
 def run_size_instance(inst, timeout=30):
-    name, build, check = inst
+    name, build, check = inst[:3]
     M, kw = build()
     snap = (len(M), repr(M[0]), repr(M[len(M) // 2]), repr(M[-1]))
     args = (M, None, kw.pop("secondary", None))
@@ -613,6 +656,7 @@ def run(ctx: Ctx):
     cases += [H.gen_containers(rng, gen_matrix) for _ in range(ctx.budget(70, 1000))]
     cases += [H.gen_magnitudes(rng, gen_matrix) for _ in range(ctx.budget(50, 500))]
     cases += [H.gen_medium(rng) for _ in range(ctx.budget(50, 600))]
+    cases += [H.gen_floats(rng, gen_matrix) for _ in range(ctx.budget(60, 600))]
     uncut = {}
     for _ in range(ctx.budget(3, 15)):
         base = _planted(rng)
@@ -640,8 +684,8 @@ def run(ctx: Ctx):
         ctx.count("cols", nc)
         ctx.count("outcome", out.get("status", out["kind"]))
         ctx.count("find_all", case["find_all"])
-        ctx.count("max_solutions", case["max_solutions"] if case["max_solutions"] is None or abs(case["max_solutions"]) < 100 else "huge")
-        ctx.count("max_iter", case["max_iter"] if case["max_iter"] is None or abs(case["max_iter"]) < 100 else "huge")
+        ctx.count("max_solutions", case["max_solutions"] if case["max_solutions"] is None or abs(case["max_solutions"]) < 100 else ("huge" if case["max_solutions"] == case["max_solutions"] else "nan"))
+        ctx.count("max_iter", case["max_iter"] if case["max_iter"] is None or abs(case["max_iter"]) < 100 else ("huge" if case["max_iter"] == case["max_iter"] else "nan"))
         rd = reading(case)
         ctx.count("call", "well-formed" if rd else "malformed")
         if rd:
@@ -654,7 +698,7 @@ def run(ctx: Ctx):
                 for e in H.events_of(case, reading):
                     ev_hist[e] = ev_hist.get(e, 0) + 1
         found = judge(ctx, case, out, mutated, nondet)
-        if not found and rd and (fam[0] in "LI") and out["kind"] == "done":
+        if not found and rd and (fam[0] in "LI" or fam == "X:float_names") and out["kind"] == "done":
             # metamorphic: plain string names / plain lists must give the identical result
             plain = H.relabel_plain(case, number_names)
             o2 = run_impl(plain)[0]
@@ -699,11 +743,27 @@ def run(ctx: Ctx):
         if bad:
             ctx.violation("solve_exact_cover: " + bad, {"kind": "case", "case": c, "sequence": True})
 
-    # ---- S: large structured instances, answer known by construction (not sent to vm_compute)
+    # ---- A2: edit the caller's objects in place between calls (cells, rows, names incl. duplicates, secondary)
+    a2_pool = [c for c in seq_pool if len(c["matrix"][0]) >= 1 and all(len(r) == len(c["matrix"][0]) for r in c["matrix"])]
+    for c in rng.sample(a2_pool, min(len(a2_pool), ctx.budget(40, 400))):
+        ctx.evaluations += 7
+        ctx.count("family", "A2")
+        bad = H.inplace_check(c, rng, mk_label, call_args, canon_result, options, run_impl, oracle)
+        if bad:
+            ctx.violation("solve_exact_cover: " + bad[0], {"kind": "case", "case": bad[1], "inplace_from": c})
+
+    # ---- S / W: large structured instances, answer known by construction (not sent to vm_compute)
+    work = {}
     for inst in H.size_instances(ctx.tier):
         out, bad = run_size_instance(inst)
+        if not bad:
+            w = dict(inst[3]) if len(inst) > 3 else {}
+            w.update(search_calls=out["iterations"], cover_calls=out["evaluations"], solutions_recorded=len(out["sels"]))
+            for k2, v2 in w.items():
+                work[k2] = max(work.get(k2, 0), v2)
+        ctx.extra["work_max_per_loop"] = work
         ctx.evaluations += 1
-        ctx.count("family", "S")
+        ctx.count("family", "W" if inst[0].startswith("W ") else "S")
         ctx.count("size_instances", inst[0] + (" -> ok" if not bad else " -> FAIL"))
         if bad:
             ctx.violation(f"solve_exact_cover on a large structured instance ({inst[0]}): {bad}",
